@@ -464,6 +464,46 @@ func c03ParamsPass(st *c03Stanza, data []c03KV) bool {
 	return true
 }
 
+// c03Accumulate: one of the readings of "merged stanzas": keys are united, value lists concatenated, an
+// empty list ("any value") absorbs, required parameters are united.
+func c03Accumulate(g []*c03Stanza) *c03Stanza {
+	acc := &c03Stanza{}
+	merge := func(dst *[]c03KV, src []c03KV) {
+		for _, kv := range src {
+			found := false
+			for i := range *dst {
+				if (*dst)[i].Key == kv.Key {
+					found = true
+					if len(kv.Vals) == 0 || len((*dst)[i].Vals) == 0 {
+						(*dst)[i].Vals = []any{}
+					} else {
+						(*dst)[i].Vals = append(append([]any{}, (*dst)[i].Vals...), kv.Vals...)
+					}
+				}
+			}
+			if !found {
+				*dst = append(*dst, c03KV{Key: kv.Key, Vals: append([]any{}, kv.Vals...)})
+			}
+		}
+	}
+	for _, st := range g {
+		if st.HasAllowed && len(st.Allowed) > 0 {
+			acc.HasAllowed = true
+			merge(&acc.Allowed, st.Allowed)
+		}
+		if st.HasDenied && len(st.Denied) > 0 {
+			acc.HasDenied = true
+			merge(&acc.Denied, st.Denied)
+		}
+		for _, r := range st.Required {
+			if !c03Contains(acc.Required, r) {
+				acc.Required = append(acc.Required, r)
+			}
+		}
+	}
+	return acc
+}
+
 func c03HasParamRules(st *c03Stanza) bool {
 	return len(st.Required) > 0 || (st.HasDenied && len(st.Denied) > 0) || (st.HasAllowed && len(st.Allowed) > 0)
 }
@@ -538,10 +578,12 @@ func (ix *c03Index) evalGroup(pattern string, req c03Req, op string) c03Ref {
 	}
 
 	// ---- request parameters
-	allPass, anyRules := true, false
+	allPass, nonePass, anyRules := true, true, false
 	for _, st := range g {
 		anyRules = anyRules || c03HasParamRules(st)
-		if !c03ParamsPass(st, req.Data) {
+		if c03ParamsPass(st, req.Data) {
+			nonePass = false
+		} else {
 			allPass = false
 		}
 	}
@@ -553,8 +595,12 @@ func (ix *c03Index) evalGroup(pattern string, req c03Req, op string) c03Ref {
 				unclear = "params-on-" + op
 			}
 		case len(g) > 1:
-			// DOCS SILENT on how allowed/denied/required parameters of different stanzas for the same pattern combine.
-			if unclear == "" {
+			// DOCS SILENT on how allowed/denied/required parameters of different stanzas for the same pattern
+			// combine. Readings: every stanza must pass / one passing stanza is enough / the constraints are
+			// accumulated into one stanza. Denied only if all three deny.
+			if nonePass && !c03ParamsPass(c03Accumulate(g), req.Data) {
+				deny = "parameters-under-every-merge-reading"
+			} else if unclear == "" {
 				unclear = "param-merge"
 			}
 		default:
